@@ -1164,6 +1164,26 @@ def _lift_operand(o):
     return o
 
 
+def make_uninterpreted_product(tag="QMUL"):
+    """Hook for QScal.mul_hook: the Hamilton product as an uninterpreted function of the eight components (congruence only),
+    with the absorbing / neutral constants 0 and real scalars handled exactly."""
+    import z3 as _z3
+    fs = [_z3.Function(f"{tag}{c}", *([_z3.RealSort()] * 8), _z3.RealSort()) for c in range(4)]
+
+    def is_zero(x):
+        return all(isinstance(v, (int, Fraction)) and v == 0 for v in x.c)
+
+    def qmul(a, b):
+        if is_zero(a) or is_zero(b):
+            return QScal(Fraction(0))
+        for x, y in ((a, b), (b, a)):
+            if all(isinstance(v, (int, Fraction)) for v in x.c) and x.c[1] == 0 and x.c[2] == 0 and x.c[3] == 0:
+                return QScal(*[x.c[0] * v for v in y.c])
+        args = [SReal.lift(v) for v in a.c] + [SReal.lift(v) for v in b.c]
+        return QScal(*[SReal.mk(f(*args)) for f in fs])
+    return qmul
+
+
 def _ikey(idx):
     """Hashable key of an index tuple (z3 terms are hash-consed: equal terms have equal ids); None if not keyable."""
     out = []
